@@ -16,6 +16,7 @@ import (
 	"github.com/freeconf/yang/meta"
 	"github.com/freeconf/yang/node"
 	"github.com/freeconf/yang/nodeutil"
+	"github.com/freeconf/yang/val"
 	"github.com/freeconf/yang/parser"
 	fcxml "github.com/freeconf/yang/patch/xml"
 )
@@ -410,6 +411,75 @@ const c19keysYang = `module xk { namespace "urn:xk?a=1&b=<2>'q'"; prefix xk; rev
   leaf top.leaf_x { type string; }
 }`
 
+// a value the writer cannot give a text (an identity the schema does not have): an error, not an element with
+// content the value does not have - the document would not read back
+func c19valueErrors(c *core.Ctx) {
+	y := `module ve { namespace "urn:ve"; prefix ve; revision 2020-01-01; identity base; identity known { base base; }
+  leaf before { type string; } leaf id { type identityref { base base; } } leaf-list ids { type identityref { base base; } } leaf after { type string; }
+  container c { leaf cid { type identityref { base base; } } } }`
+	m, err := parser.LoadModuleFromString(nil, y)
+	if err != nil {
+		c.Violation(core.Replay{Kind: "harness", Summary: "c19valueErrors module: " + err.Error(), NoInputFound: true})
+		return
+	}
+	for _, bad := range []string{"id", "ids", "cid", ""} {
+		var mk func(inC bool) node.Node
+		mk = func(inC bool) node.Node {
+			return &nodeutil.Basic{
+				OnChild: func(r node.ChildRequest) (node.Node, error) {
+					if r.Meta.Ident() == "c" {
+						return mk(true), nil
+					}
+					return nil, nil
+				},
+				OnField: func(r node.FieldRequest, hnd *node.ValueHandle) error {
+					name := "known"
+					if r.Meta.Ident() == bad {
+						name = "nosuch"
+					}
+					switch r.Meta.Ident() {
+					case "before", "after":
+						hnd.Val = val.String("x")
+					case "id", "cid":
+						hnd.Val = val.IdentRef{Label: name}
+					case "ids":
+						hnd.Val = val.IdentRefList{{Label: "known"}, {Label: name}}
+					}
+					return nil
+				}}
+		}
+		for _, w := range []string{"stream", "doc"} {
+			var doc string
+			var werr error
+			e := safeDo(func() error {
+				sel := node.NewBrowser(m, mk(false)).Root()
+				if w == "stream" {
+					doc, werr = nodeutil.WriteXML(sel)
+				} else {
+					doc, werr = nodeutil.WriteXMLDoc(sel, false)
+				}
+				return nil
+			})
+			c.Evaluations++
+			c.Count("value_error", w)
+			c.Distinct("valueerr " + w + bad)
+			problem := ""
+			switch {
+			case e != nil:
+				problem = e.Error()
+			case bad == "" && (werr != nil || !strings.Contains(doc, "<id>known</id>")):
+				problem = fmt.Sprintf("a tree of known identities is not written: %v %s", werr, short(doc))
+			case bad != "" && werr == nil:
+				problem = "no error, document " + short(doc)
+			}
+			if problem != "" {
+				c.Violation(core.Replay{Kind: "property-failure", Class: "value-error-" + w, Summary: fmt.Sprintf("%s writer, leaf %q holds the identity 'nosuch' the schema does not have: %s", w, bad, problem),
+					Input: map[string]interface{}{"yang": y, "writer": w, "leaf": bad}, Impl: problem, Spec: "an error"})
+			}
+		}
+	}
+}
+
 func c19keys(c *core.Ctx) {
 	m, err := parser.LoadModuleFromString(nil, c19keysYang)
 	if err != nil {
@@ -554,7 +624,8 @@ func c19keys(c *core.Ctx) {
 
 func C19(c *core.Ctx) {
 	c19keys(c)
-	c.Rule = "generated schemas (every built-in leaf type, leaf-lists, containers, keyed lists, choices, nodes of an imported module's grouping incl. an identityref, a leaf added by augment into that grouping's container) × conforming trees whose strings cover markup, quotes, CDATA terminators, leading/trailing/inner white space, tab/CR/LF, non-ASCII × writers {WriteXMLDoc compact, WriteXMLDoc pretty, WriteXML (streaming XMLWtr), one XMLWtr reused for every document}: (i) output parsed by encoding/xml in strict mode as one root element and compared with the expected element tree (names, namespaces, text), (ii) output compared byte for byte with the Lean writer models (tree / stream / pretty), (iii) ReadXMLDoc + UpsertFrom into a fresh reference store compared with the original tree and with the Lean reader model, as written and after a sibling interleaving that keeps the order of same-named elements, with same-named elements of a foreign namespace inserted, and with all namespaces dropped, (iv) patch/xml EscapeText against the Lean escaper on the string pool and random strings; directed: a tree with two- and three-component keys and dotted / dashed node names under a namespace that needs escaping, through three writers, read back and every entry addressed by key; WriteXML = WriteXMLDoc = one well-formed element for seven start selections. non-trivial = tree with ≥1 list entry or nested container; distinct by (schema, tree, writer, variant)"
+	c19valueErrors(c)
+	c.Rule = "generated schemas (every built-in leaf type, leaf-lists, containers, keyed lists, choices, nodes of an imported module's grouping incl. an identityref, a leaf added by augment into that grouping's container) × conforming trees whose strings cover markup, quotes, CDATA terminators, leading/trailing/inner white space, tab/CR/LF, non-ASCII × writers {WriteXMLDoc compact, WriteXMLDoc pretty, WriteXML (streaming XMLWtr), one XMLWtr reused for every document}: (i) output parsed by encoding/xml in strict mode as one root element and compared with the expected element tree (names, namespaces, text), (ii) output compared byte for byte with the Lean writer models (tree / stream / pretty), (iii) ReadXMLDoc + UpsertFrom into a fresh reference store compared with the original tree and with the Lean reader model, as written and after a sibling interleaving that keeps the order of same-named elements, with same-named elements of a foreign namespace inserted, and with all namespaces dropped, (iv) patch/xml EscapeText against the Lean escaper on the string pool and random strings; directed: a tree with two- and three-component keys and dotted / dashed node names under a namespace that needs escaping, through three writers, read back and every entry addressed by key; WriteXML = WriteXMLDoc = one well-formed element for seven start selections. non-trivial = tree with ≥1 list entry or nested container; distinct by (schema, tree, writer, variant); directed (c19valueErrors): a node that answers an identity the schema does not have for a leaf, a leaf-list element, a leaf in a container: both writers return an error"
 	c.Assumptions = append(c.Assumptions,
 		"encoding/xml (Strict) of the Go standard library is the XML 1.0 well-formedness oracle on the byte level; the Lean theorems are on the token level plus the character-data codec",
 		"strings are drawn from the characters a YANG string may hold (RFC 7950 §9.4), which are the characters XML 1.0 can carry",
